@@ -31,6 +31,7 @@ ASSUMPTIONS = ["comparer return values pass through ItemGrader.standardize_cfn_r
 
 AG = 'mitxgraders.baseclasses.AbstractGrader'
 KEYS = {'ok', 'grade_decimal', 'msg'}
+LONG_KEYS = {'input_list', 'overall_message'}
 GRADER_MODULES = ('mitxgraders.baseclasses', 'mitxgraders.listgrader', 'mitxgraders.stringgrader', 'mitxgraders.helpers.math_helpers',
                   'mitxgraders.formulagrader.matrixgrader', 'mitxgraders.formulagrader.intervalgrader',
                   'mitxgraders.formulagrader.integralgrader', 'mitxgraders.formulagrader.formulagrader',
@@ -133,6 +134,11 @@ def d1_pipeline(ctx, idx):
             if s is None:
                 r.undecided('AbstractGrader.__call__: key filter', 'filter set is not a literal', where)
                 continue
+            if s == LONG_KEYS and unparse(src) in resnames:
+                # the top level of a several-inputs result filtered down to what edX consumes (internal extras of a nested
+                # list grader dropped): a different, legitimate filter; the per-entry filter is still required below
+                r.ok('AbstractGrader.__call__: long-form top-level filter', 'keeps exactly overall_message and input_list', where)
+                continue
             if s != KEYS:
                 r.violation('AbstractGrader.__call__: key filter', 'the filter keeps %s instead of exactly %s' % (sorted(s), sorted(KEYS)),
                             where, expected=str(sorted(KEYS)), found=str(sorted(s)))
@@ -161,7 +167,34 @@ def d1_pipeline(ctx, idx):
                 if isinstance(a, ast.If):
                     test = a
                     break
-            if loops:
+            lcomp = parent(node) if isinstance(parent(node), ast.ListComp) and parent(node).elt is node else None
+            if not loops and lcomp is not None and len(lcomp.generators) == 1 and not lcomp.generators[0].ifs:
+                # `X['input_list'] = [{...filter...} for entry in X['input_list']]`: every entry by construction
+                env = lib.local_env(fi.node)
+                it = unparse(nf.subst(lcomp.generators[0].iter, env))
+                covers = "['input_list']" in it and it.split('[')[0] in resnames
+                stores_back = isinstance(st, ast.Assign) and any(
+                    unparse(nf.subst(t, env)).split('[')[0] in resnames and unparse(nf.subst(t, env)).endswith("['input_list']")
+                    for t in st.targets)
+                if covers and stores_back:
+                    r.ok('AbstractGrader.__call__: list-form filter', 'applied to every entry of input_list (comprehension)', lib.loc(fi, st))
+                elif not covers:
+                    r.undecided('AbstractGrader.__call__: list-form filter', 'comprehension iterates `%s`, not recognised as '
+                                'result[\'input_list\']' % it, lib.loc(fi, st))
+                else:
+                    r.violation('AbstractGrader.__call__: list-form filter', 'the filtered entries are not stored back into input_list',
+                                lib.loc(fi, st))
+                pos = False
+                if test is not None:
+                    in_body = any(st is s_ or st in ast.walk(s_) for s_ in test.body)
+                    in_else = any(st is s_ or st in ast.walk(s_) for s_ in test.orelse)
+                    pos = any((in_body and nf.match("'input_list' in %s" % rn, test.test) is not None) or
+                              (in_else and nf.match("'input_list' not in %s" % rn, test.test) is not None) for rn in sorted(resnames))
+                if pos:
+                    r.ok('AbstractGrader.__call__: list-form selection', "selected by 'input_list' in result", lib.loc(fi, st))
+                else:
+                    r.undecided('AbstractGrader.__call__: list-form selection', 'selection of the list form not recognised', lib.loc(fi, st))
+            elif loops:
                 lp = loops[0]
                 env = lib.local_env(fi.node)
                 it = unparse(nf.subst(lp.iter, env))
@@ -286,6 +319,23 @@ def d2_keys(ctx, idx):
                     ks = set(keys)
                     if 'expect' in ks or 'comparer' in ks:
                         continue      # an *answer* description, not a result
+                    if 'input_list' in ks:
+                        # a several-inputs result; internal extras (a consolidated grade for a parent list grader) are legitimate
+                        # exactly when AbstractGrader.__call__ filters the top level down to what edX consumes
+                        extra = ks - LONG_KEYS
+                        if 'overall_message' not in ks:
+                            r.violation('%s: long-form literal' % f.qualname[len('mitxgraders.'):], 'a list result is built without '
+                                        "['overall_message']", lib.loc(f, n))
+                        elif not extra:
+                            r.ok('%s: long-form literal' % f.qualname[len('mitxgraders.'):], 'has input_list and overall_message', lib.loc(f, n))
+                        elif _long_top_filter(idx):
+                            r.ok('%s: long-form literal' % f.qualname[len('mitxgraders.'):], 'extras %s are dropped by the top-level filter of '
+                                 'AbstractGrader.__call__' % sorted(extra), lib.loc(f, n))
+                        else:
+                            r.undecided('%s: long-form literal' % f.qualname[len('mitxgraders.'):], 'carries %s besides input_list and '
+                                        'overall_message and __call__ has no top-level filter for several-inputs results: whether the extra '
+                                        'key reaches edX depends on the callers' % sorted(extra), lib.loc(f, n))
+                        continue
                     if ks & {'ok', 'grade_decimal'}:
                         if _is_table_not_result(n):
                             continue
@@ -335,12 +385,24 @@ def d2_keys(ctx, idx):
         rets = lib.returns_of(pc.node)
         for ret in rets:
             v = ret.value
-            okv = isinstance(v, ast.Dict) and set(lib.dict_literal_keys(v)) == {'input_list', 'overall_message'}
+            okv = isinstance(v, ast.Dict) and (set(lib.dict_literal_keys(v)) == LONG_KEYS or
+                                               (set(lib.dict_literal_keys(v)) > LONG_KEYS and _long_top_filter(idx)))
             src = None
             if okv:
                 src = lib.inline_locals(v.values[lib.dict_literal_keys(v).index('input_list')], pc.node)
             r.check(okv and src is not None and any(isinstance(c, ast.Call) and nf.callee_name(c) == 'ungroupify_list' for c in ast.walk(src)),
                     'ListGrader.perform_check: return', 'input_list = ungroupify_list(...)', 'input_list is not the un-grouped list: `%s`' % short(v), lib.loc(pc, ret))
+
+
+def _long_top_filter(idx):
+    """AbstractGrader.__call__ rebinds the several-inputs result to a copy filtered to exactly overall_message / input_list."""
+    fi = idx.func(AG + '.__call__')
+    for node, src, sets in _key_filters(fi):
+        st = lib.enclosing_stmt(node)
+        if sets and sets[0] == LONG_KEYS and isinstance(st, ast.Assign) and st.value is node and \
+                any(isinstance(t, ast.Name) and t.id == unparse(src) for t in st.targets):
+            return True
+    return False
 
 
 def _is_table_not_result(d):
@@ -803,20 +865,126 @@ def d4_ok_map(ctx, idx):
                                 '(e.g. a partial grade scaled by a small attempt credit) is mapped to False / True while grade_decimal keeps its '
                                 'value, so ok and grade_decimal disagree' % short(node), lib.loc(f, node), expected='the grade itself')
         vs = idx.func('mitxgraders.baseclasses.ItemGrader.validate_single_answer')
-        recomputes = [(n, b) for n, b in _stores(vs.node, 'ok') if isinstance(n, ast.Assign) and isinstance(n.value, ast.Call) and nf.callee_name(n.value) == OK_FUNC]
-        if not recomputes:
-            r.violation('ItemGrader.validate_single_answer', "ok is never computed from grade_decimal: 'computed' reaches results as ok", vs.loc)
-        for n, b in recomputes:
-            t = _enclosing_if(n)
-            if t is None:
-                r.ok('ItemGrader.validate_single_answer: ok recomputation', 'unconditional (no pinning at all)', lib.loc(vs, n))
+        _d4_pin_table(r, vs)
+
+
+def _pin_atom(e, b):
+    """('computed', polarity) for `b['ok'] ==/!= 'computed'`, ('partial', polarity) for `b['grade_decimal'] !=/== 1`."""
+    if isinstance(e, ast.Compare) and len(e.ops) == 1 and isinstance(e.ops[0], (ast.Eq, ast.NotEq)):
+        left, right = e.left, e.comparators[0]
+        if isinstance(left, ast.Constant) and not isinstance(right, ast.Constant):
+            left, right = right, left
+        bb, k = _sub_base_key(left)
+        if bb == b and isinstance(right, ast.Constant):
+            if k == 'ok' and right.value == 'computed':
+                return 'computed', isinstance(e.ops[0], ast.Eq)
+            if k == 'grade_decimal' and right.value == 1 and not isinstance(right.value, bool):
+                return 'partial', isinstance(e.ops[0], ast.NotEq)
+    return None
+
+
+def _pin_eval3(e, val, b):
+    if isinstance(e, ast.Constant) and isinstance(e.value, bool):
+        return e.value
+    if isinstance(e, ast.BoolOp):
+        vs_ = [_pin_eval3(v, val, b) for v in e.values]
+        if isinstance(e.op, ast.And):
+            return False if any(v is False for v in vs_) else (True if all(v is True for v in vs_) else None)
+        return True if any(v is True for v in vs_) else (False if all(v is False for v in vs_) else None)
+    if isinstance(e, ast.UnaryOp) and isinstance(e.op, ast.Not):
+        v = _pin_eval3(e.operand, val, b)
+        return None if v is None else (not v)
+    a = _pin_atom(e, b)
+    if a is not None:
+        return val[a[0]] if a[1] else (not val[a[0]])
+    return None
+
+
+def _pin_value(e, val, b):
+    """What a value stored into b['ok'] is, under a valuation of the two atoms: kept / computed / computed-other / true / other / unknown."""
+    if isinstance(e, ast.IfExp):
+        t = _pin_eval3(e.test, val, b)
+        if t is None:
+            return 'unknown'
+        return _pin_value(e.body if t else e.orelse, val, b)
+    bb, k = _sub_base_key(e)
+    if bb == b and k == 'ok':
+        return 'kept'
+    if isinstance(e, ast.Call) and nf.callee_name(e) == OK_FUNC and len(e.args) == 1:
+        ab, ak = _sub_base_key(e.args[0])
+        return 'computed' if (ab == b and ak == 'grade_decimal') else 'computed-other'
+    if isinstance(e, ast.Constant) and e.value is True:
+        return 'true'
+    return 'other'
+
+
+def _d4_pin_table(r, vs):
+    """validate_single_answer: the ok an answer ends up with, decided over the truth table of (ok == 'computed',
+    grade_decimal != 1): computed from the grade in three cases, the author's own value only for a full-marks answer with an
+    explicit ok -- whatever the layout (one compound test, guard clauses, a first-match table turned into a conditional
+    expression)."""
+    import itertools
+    stores = _stores(vs.node, 'ok')
+    bases = sorted({b for _, b in stores if b})
+    if len(bases) > 1:
+        r.undecided('ItemGrader.validate_single_answer: pin condition', 'ok is stored on several objects: %s' % bases, vs.loc)
+        return
+    if not bases:
+        # nothing here writes ok: with every helper of the function inlined that is a definite absence (finalize downgrades it
+        # when an un-inlined helper is called from here)
+        r.violation('ItemGrader.validate_single_answer', "ok is never computed from grade_decimal: 'computed' reaches results as ok", vs.loc)
+        return
+    b = bases[0]
+    paths = [p for p in nf.decision_paths(vs.node.body, keep_locals=(b,)) if p.leaf.kind != 'raise']
+    wrong, unknown = [], []
+    for computed, partial in itertools.product((False, True), repeat=2):
+        val = {'computed': computed, 'partial': partial}
+        outcomes = set()
+        for p in paths:
+            gs = [_pin_eval3(g, val, b) for g in p.guards]
+            if any(g is False for g in gs):
                 continue
-            res = nf.classify("%s['ok'] == 'computed' or %s['grade_decimal'] != 1" % (b, b), nf.subst(t.test, lib.local_env(vs.node)))
-            r.verdict('ItemGrader.validate_single_answer: pin condition', res, lib.loc(vs, t),
-                      expected="recompute iff ok == 'computed' or grade_decimal != 1")
-            argok = nf.match("%s['grade_decimal']" % b, nf.subst(n.value.args[0], lib.local_env(vs.node))) is not None
-            r.check(argok, 'ItemGrader.validate_single_answer: ok recomputation argument', "the answer's grade_decimal",
-                    'ok is computed from `%s`' % short(n.value.args[0]), lib.loc(vs, n))
+            final = 'kept'
+            for e in p.effects:
+                for n in ast.walk(e):
+                    if isinstance(n, ast.Assign) and any(_sub_base_key(t) == (b, 'ok') for t in n.targets):
+                        final = _pin_value(n.value, val, b) if n is e else 'unknown'
+            if any(g is None for g in gs) and final != 'kept':
+                final = 'unknown' if final not in ('computed',) else final
+            outcomes.add(final if all(g is not None for g in gs) else ('maybe:' + final))
+        case = "ok %s, grade_decimal %s 1" % ("== 'computed'" if computed else 'given by the author', '!=' if partial else '==')
+        need_computed = computed or partial
+        allowed = {'computed'}
+        if not partial:
+            allowed.add('true')         # grade_decimal == 1: the map gives True (checked above)
+        if not need_computed:
+            allowed.add('kept')
+        definite = {o for o in outcomes if not o.startswith('maybe:')}
+        maybe = {o[6:] for o in outcomes if o.startswith('maybe:')}
+        bad = sorted(o for o in definite if o not in allowed and o != 'unknown')
+        if bad and not maybe:
+            if 'kept' in bad and computed:
+                wrong.append("%s: 'computed' reaches results as ok" % case)
+            elif 'kept' in bad:
+                wrong.append('%s: the explicit ok is kept although the answer is not worth full marks (documented as ignored): ok and '
+                             'grade_decimal of the result disagree' % case)
+            elif 'true' in bad:
+                wrong.append('%s: ok is set to True although the grade is not 1' % case)
+            elif 'computed-other' in bad:
+                wrong.append("%s: ok is computed from something else than the answer's grade_decimal" % case)
+            else:
+                wrong.append('%s: ok ends up as %s' % (case, bad))
+        elif bad or 'unknown' in definite or (maybe - allowed):
+            unknown.append(case)
+    where = lib.loc(vs, stores[0][0])
+    if wrong:
+        r.violation('ItemGrader.validate_single_answer: pin condition', '; '.join(wrong[:2]), where,
+                    expected="recompute iff ok == 'computed' or grade_decimal != 1")
+    elif unknown:
+        r.undecided('ItemGrader.validate_single_answer: pin condition', 'not decided for: %s' % '; '.join(unknown[:3]), where)
+    else:
+        r.ok('ItemGrader.validate_single_answer: pin condition', "ok computed from grade_decimal unless the author gave ok for a full-marks "
+             'answer: 4/4 cases', where)
 
 
 _OK_MAP_NOTES = []
